@@ -311,7 +311,8 @@ def main(argv=None):
         return 0
     unknown = [(o, r) for o, r in proof if r["result"] not in ("sat", "unsat")]
     faults = []
-    if not proof:
+    bounded_only = (getattr(spec, "level", None) or spec.ns.get("LEVEL", "proof")) == "exploration" and not spec.targets
+    if not proof and not bounded_only:
         faults.append("zero obligations generated")
     for e in engines:
         if not [o for o in e.obls if o.kind not in ("canary",) and not o.kind.startswith("cover.")]:
@@ -354,6 +355,8 @@ def main(argv=None):
     # native / bounded parts
     native = native_checks(spec, prop, tier, seed)
     native_viol = []
+    if bounded_only and (native is None or not native.get("evaluations")):
+        faults.append("bounded stand-in evaluated nothing")
     if native is not None:
         if native.get("error"):
             faults.append("bounded driver: " + native["error"] + " " + native.get("stderr", "")[-500:])
